@@ -11,7 +11,12 @@
 #endif
 uint64_t in_rec[N * R], in_rcount[N], in_donors[N * (D + 1)], in_dcount[N], in_dfs[N], in_bfs[N], in_levels[N + 1];
 fsv_f64 in_rdist[N * R], in_rweight[N * R], in_elev[N];
-uint8_t in_mask[N];
+uint8_t in_mask[N], in_mask2[N];
+uint64_t in_dfs2[N];
+fsv_f64 in_elev2[N];
+#ifndef ROUNDS
+#define ROUNDS 1
+#endif
 void fsv_harness(void)
 {
   uint64_t o_rec[N * R], o_rcount[N], o_donors[N * (D + 1)], o_dcount[N], o_dfs[N], o_bfs[N], o_levels[N + 1], o_nlevels = 0, bl[N + 1], nbl = 0;
@@ -27,15 +32,23 @@ void fsv_harness(void)
 #else
   for (int i = 0; i < N; i++) in_mask[i] = 0;
 #endif
+#if ROUNDS == 2
+  FSV_IN_U8(in_mask2, N, 0, 1); FSV_IN_U64(in_dfs2, N, 0, N - 1); FSV_IN_F64(in_elev2, N);
+  for (int i = 0; i < N; i++) FSV_ASSUME(!FSV_ISNAN(in_elev2[i]));
+#endif
   for (int i = 0; i < N; i++) if ((BLMASK >> i) & 1) bl[nbl++] = i;
-  FSV_MAY_THROW(fsv_snapshot(in_rec, in_rcount, in_rdist, in_rweight, in_donors, in_dcount, in_dfs, in_bfs, in_levels, NLEV, in_mask, USE_MASK, bl, nbl, in_elev,
+  FSV_MAY_THROW(fsv_snapshot(in_rec, in_rcount, in_rdist, in_rweight, in_donors, in_dcount, in_dfs, in_bfs, in_levels, NLEV, in_mask, USE_MASK, bl, nbl, in_elev, ROUNDS, in_mask2, in_dfs2, in_elev2,
                              o_rec, o_rcount, o_rdist, o_rweight, o_donors, o_dcount, o_dfs, o_bfs, o_levels, &o_nlevels, o_mask, o_base, o_elev));
   for (int i = 0; i < N; i++) { FSV_OBS_U64(o_rcount[i]); FSV_OBS_U64(o_dcount[i]); FSV_OBS_U64(o_dfs[i]); FSV_OBS_U64(o_bfs[i]); FSV_OBS_F64(o_elev[i]); FSV_OBS_U64(o_donors[i * (D + 1)]); }
+  /* expected state: that of the LAST save (in_* arrays are inputs and are never written: the trace reader takes the last assignment) */
+  const uint8_t* x_mask = ROUNDS == 2 ? in_mask2 : in_mask;
+  const uint64_t* x_dfs = ROUNDS == 2 ? in_dfs2 : in_dfs;
+  const fsv_f64* x_elev = ROUNDS == 2 ? in_elev2 : in_elev;
   for (int i = 0; i < N; i++) {
     FSV_ASSERT(o_rcount[i] == in_rcount[i], "snapshot: receiver counts");
     FSV_ASSERT(o_dcount[i] == in_dcount[i], "snapshot: donor counts");
-    FSV_ASSERT(o_dfs[i] == in_dfs[i], "snapshot: bottom-up (depth-first) order");
-    FSV_ASSERT(o_elev[i] == in_elev[i], "elevation snapshot equals the elevation");
+    FSV_ASSERT(o_dfs[i] == x_dfs[i], "snapshot: bottom-up (depth-first) order");
+    FSV_ASSERT(o_elev[i] == x_elev[i], "elevation snapshot equals the elevation");
     for (int k = 0; k < R; k++) if ((uint64_t)k < in_rcount[i]) {
       FSV_ASSERT(o_rec[i * R + k] == in_rec[i * R + k], "snapshot: receivers");
       FSV_ASSERT(o_rdist[i * R + k] == in_rdist[i * R + k], "snapshot: receiver distances");
@@ -45,7 +58,7 @@ void fsv_harness(void)
 #ifndef EXCL_KF
     for (int k = 1; k < D + 1; k++) if ((uint64_t)k < in_dcount[i]) FSV_ASSERT(o_donors[i * (D + 1) + k] == in_donors[i * (D + 1) + k], "snapshot: donors beyond the first column");
     FSV_ASSERT(o_bfs[i] == in_bfs[i], "snapshot: breadth-first order");
-    FSV_ASSERT(o_mask[i] == in_mask[i], "snapshot: mask (basins on the snapshot graph)");
+    FSV_ASSERT(o_mask[i] == x_mask[i], "snapshot: mask (basins on the snapshot graph)");
     FSV_ASSERT(o_base[i] == ((BLMASK >> i) & 1), "snapshot: base levels (pits on the snapshot graph)");
 #endif
   }
